@@ -373,3 +373,9 @@ _MIN_ADDENDA = {
 }
 for _k, _v in _MIN_ADDENDA.items():
     PROPS[_k]["min_events"].update(_v)
+
+# minimums that do not apply when the monitor established that there is nothing of that kind to observe
+WAIVERS = {
+    "C18": {"server_never_used_more_than_one_thread": ["runs_on_several_worker_threads", "pool16_runs_on_several_threads",
+                                                        "pool2_runs_on_several_threads"]},
+}
